@@ -27,6 +27,20 @@ def check(run, only=None):
             c["fam"] = "random-program"
             c["exp"] = {"status": "?"}
         vecs = vecs + rnd
+    if only is None or (only and only[0].get("k") == "render"):
+        # the same programs once more through the library's own loaders (no fault injection there): a name that is missing, that is
+        # a directory, or that does not parse is a template that cannot be loaded
+        lv = []
+        src = only if only is not None else [v for v in vecs if v.get("fam") != "random-program" and not v.get("oom")]
+        for j, v in enumerate(src):
+            if only is not None:
+                lv.append(v)
+            else:
+                lv.append(dict(v, k="render", loader=("fs", "memory")[j % 2], id=v["id"] + "/ldr", nolog=True))
+        common.replay_vectors(run, lv, nontrivial=lambda v: v["exp"]["status"] == "err", check_log=False,
+                              sigfn=lambda v, o, why: "C17 through the %s loader: %s [%s]" % (v.get("loader"), why.split(":")[0], v.get("fam")))
+        if only is not None:
+            return
     progs = [v for v in vecs if not v.get("oom")]
     run.oom += len(vecs) - len(progs)
     send = [{k: x for k, x in v.items() if k != "exp"} for v in progs]
